@@ -155,6 +155,8 @@ def pmap(fn, jobs, procs=None):
     import multiprocessing as mp
 
     procs = procs or min(len(jobs), os.cpu_count() or 4)
+    from . import env
+    env.scratch_dir()   # created (and registered for removal) in the parent, inherited by the workers
     if procs <= 1 or len(jobs) <= 1:
         return [fn(j) for j in jobs]
     ctx = mp.get_context("fork")
